@@ -36,6 +36,48 @@ class Boom(Exception):
     """fault injected by the harness"""
 
 
+class BoomBase(BaseException):
+    """a fault that is not an Exception (like KeyboardInterrupt or SystemExit)"""
+
+
+_RAISE = [Boom]
+BOOMS = (Boom, BoomBase)
+FRAGILE = {"fail_at": None}
+
+
+class UnpickleFails(Exception):
+    """(model only) a stored value can no longer be loaded"""
+
+
+class Fragile(object):
+    """a value that pickles fine but whose unpickling fails when FRAGILE['fail_at'] names it
+    (as when the class has disappeared from the program that reads the cache)"""
+
+    def __init__(self, i):
+        self.i = i
+
+    def __eq__(self, other):
+        return isinstance(other, Fragile) and other.i == self.i
+
+    def __hash__(self):
+        return hash(("Fragile", self.i))
+
+    def __repr__(self):
+        return "Fragile(%d)" % self.i
+
+    def __deepcopy__(self, memo):
+        return Fragile(self.i)
+
+    def __reduce__(self):
+        return (_rebuild_fragile, (self.i,))
+
+
+def _rebuild_fragile(i):
+    if FRAGILE["fail_at"] == i:
+        raise AttributeError("Can't get attribute 'Fragile' (simulated)")
+    return Fragile(i)
+
+
 # ---- stages ---------------------------------------------------------------------
 
 def _split(v):
@@ -95,7 +137,7 @@ class Stage(object):
     def __call__(self, v):
         if self.fail_at is not None and self.calls == self.fail_at:
             self.calls += 1
-            raise Boom()
+            raise _RAISE[0]()
         self.calls += 1
         return self.f(v)
 
@@ -107,7 +149,9 @@ def upstream_values(n, version, with_ctx):
     out = []
     for i in range(n):
         d = (version, i)
-        if not with_ctx:
+        if with_ctx == "fragile":
+            out.append((version, i, Fragile(i)))
+        elif not with_ctx:
             out.append(d)
         elif with_ctx == "big":
             out.append((d, {"v": version, "i": i, "pad": "x" * 900}))
@@ -144,19 +188,20 @@ class CountingSource(object):
     def gen(self):
         for i, v in enumerate(share(self.values, self.mode)):
             if self.fail_at is not None and i == self.fail_at:
-                raise Boom()
+                raise _RAISE[0]()
             self.pulls += 1
             yield v
         if self.fail_at is not None and self.fail_at >= len(self.values):
-            raise Boom()
+            raise _RAISE[0]()
 
 
 # ---- the model ---------------------------------------------------------------------
 
 class MCache(object):
-    def __init__(self, state, recompute):
+    def __init__(self, state, recompute, break_at=None):
         self.state = state
         self.recompute = recompute
+        self.break_at = break_at
         self.mode = None
         self.passed = []
         self.completed = False
@@ -166,9 +211,16 @@ class MCache(object):
         # the choice is made when the pipeline is assembled, before any value flows
         if self.state is not None and not self.recompute:
             self.mode = "replay"
-            return iter(copy.deepcopy(list(self.state)))
+            return self._replay()
         self.mode = "fill"
         return self._fill(flow)
+
+    def _replay(self):
+        for v in copy.deepcopy(list(self.state)):
+            if self.break_at is not None and _split(v)[0][1] == self.break_at:
+                # this value cannot be loaded any more: an error, never a silently shorter flow
+                raise UnpickleFails()
+            yield v
 
     def _fill(self, flow):
         self.started = True
@@ -179,7 +231,7 @@ class MCache(object):
         self.completed = True
 
 
-def _model_chain(stages, world, recompute, flow, fault):
+def _model_chain(stages, world, recompute, flow, fault, break_at=None):
     """lazily chained generators mirroring Sequence.run; returns (iterator, model caches)"""
     mcaches = {}
 
@@ -187,7 +239,7 @@ def _model_chain(stages, world, recompute, flow, fault):
         cnt = 0
         for v in fl:
             if fault and fault[0] == idx and cnt == fault[1]:
-                raise Boom()
+                raise _RAISE[0]()
             cnt += 1
             yield f(v)
 
@@ -195,7 +247,7 @@ def _model_chain(stages, world, recompute, flow, fault):
         cnt = 0
         for v in fl:
             if fault and fault[0] == idx and cnt == fault[1]:
-                raise Boom()
+                raise _RAISE[0]()
             cnt += 1
             if p(v):
                 yield v
@@ -208,7 +260,7 @@ def _model_chain(stages, world, recompute, flow, fault):
         elif r[0] == "filter":
             flow = filtgen(PREDS[r[1]], flow, idx)
         else:
-            mc = MCache(world[r[1]], recompute.get(r[1], False))
+            mc = MCache(world[r[1]], recompute.get(r[1], False), break_at)
             mcaches[r[1]] = (idx, mc)
             flow = mc.run(flow)
     return flow, mcaches
@@ -217,10 +269,10 @@ def _model_chain(stages, world, recompute, flow, fault):
 def _src_gen(values, fault, mode=None):
     for i, v in enumerate(share(values, mode)):
         if fault and fault[0] == -1 and i == fault[1]:
-            raise Boom()
+            raise _RAISE[0]()
         yield v
     if fault and fault[0] == -1 and fault[1] >= len(values):
-        raise Boom()
+        raise _RAISE[0]()
 
 
 def _consume(it, stop):
@@ -237,8 +289,14 @@ def _consume(it, stop):
         for v in it:
             out.append(copy.deepcopy(v))
         return out, True, None
-    except Boom:
+    except BOOMS:
         return out, False, "Boom"
+    except UnpickleFails:
+        return out, False, "unpickle"
+    except AttributeError:
+        if FRAGILE["fail_at"] is None:
+            raise
+        return out, False, "unpickle"
 
 
 def simulate(stages, world, op, values, mode=None, recompute=None):
@@ -250,6 +308,7 @@ def simulate(stages, world, op, values, mode=None, recompute=None):
     stop = op["stop"]
     if stop[0] == "kill":
         stop = ["take", stop[1]]
+    _RAISE[0] = BoomBase if fault and len(fault) > 2 and fault[2] == "base" else Boom
     # (stages may change values in place: every use gets its own copies)
     pristine = copy.deepcopy(values)
     fresh = lambda: copy.deepcopy(pristine)
@@ -257,13 +316,13 @@ def simulate(stages, world, op, values, mode=None, recompute=None):
         # Split materialises the (single) block before the branch runs
         try:
             buf = list(_src_gen(fresh(), fault, mode))
-        except Boom:
+        except BOOMS:
             return [], False, "Boom", set(), [dict(world)], -1
         base = lambda: iter(list(_src_gen(fresh(), None, mode)))
-        flow, mc = _model_chain(stages, world, recompute, iter(buf), fault)
+        flow, mc = _model_chain(stages, world, recompute, iter(buf), fault, op.get("break_at"))
     else:
         base = lambda: _src_gen(fresh(), None, mode)
-        flow, mc = _model_chain(stages, world, recompute, _src_gen(fresh(), fault, mode), fault)
+        flow, mc = _model_chain(stages, world, recompute, _src_gen(fresh(), fault, mode), fault, op.get("break_at"))
     out, completed, exc = _consume(flow, stop)
     if hasattr(flow, "close"):
         flow.close()
@@ -290,7 +349,7 @@ def simulate(stages, world, op, values, mode=None, recompute=None):
             full_flow, _ = _model_chain(stages[:idx], world, recompute, base(), None)
             try:
                 full = [copy.deepcopy(v) for v in full_flow]
-            except Boom:
+            except BOOMS:
                 full = None
             if m.started and full is not None and list(m.passed) == full:
                 opts.append(list(m.passed))
@@ -349,6 +408,8 @@ def run_real(stages, op, values, mode=None, real=None, templated=False):
     if fault and fault[0] >= 0:
         stage_objs[fault[0]].fail_at = stage_objs[fault[0]].calls + fault[1]
     src = CountingSource(values, fail_at=fault[1] if fault and fault[0] == -1 else None, mode=mode)
+    _RAISE[0] = BoomBase if fault and len(fault) > 2 and fault[2] == "base" else Boom
+    FRAGILE["fail_at"] = op.get("break_at")
     driver = op["driver"]
     how = driver
     if reuse:
@@ -412,6 +473,7 @@ def run_real(stages, op, values, mode=None, real=None, templated=False):
         it.close()
     del it
     gc.collect()
+    FRAGILE["fail_at"] = None
     calls = dict((idx, s.calls - before[idx]) for idx, s in stage_objs.items())
     return out, completed, exc, src.pulls, calls, how
 
@@ -538,7 +600,7 @@ def history_case(draw, big=False):
     nstages = len(stages)
     names = ["A", "B"] if two else ["A"]
     fallible = [-1] + [i for i, r in enumerate(stages) if r[0] != "cache"]
-    case = {"stages": stages, "n": n, "ctx": draw(st.sampled_from([False, True, True, "shared", "big"]))}
+    case = {"stages": stages, "n": n, "ctx": draw(st.sampled_from([False, True, True, "shared", "big", "fragile"]))}
     if draw(st.integers(0, 3)) == 0:
         case["templated"] = True
     if draw(st.integers(0, 3)) == 0:
@@ -553,6 +615,9 @@ def history_case(draw, big=False):
             op["stop"] = ["kill", draw(st.integers(0, n + 1))]
         elif kind == "raise":
             op["fault"] = [draw(st.sampled_from(fallible)), draw(st.integers(0, n))]
+            if draw(st.integers(0, 2)) == 0:
+                # not an Exception (KeyboardInterrupt, SystemExit ...)
+                op["fault"].append("base")
 
     ops = []
     for _ in range(draw(st.integers(1, 10 if big else 6))):
@@ -570,6 +635,9 @@ def history_case(draw, big=False):
             op["recompute"] = rc or {"A": True}
             kind = draw(st.sampled_from(["complete", "take", "raise"]))
         stop_or_fault(op, kind)
+        if case["ctx"] == "fragile" and kind == "complete" and draw(st.booleans()):
+            # in this run one of the stored values can no longer be unpickled
+            op["break_at"] = draw(st.integers(0, max(n - 1, 0)))
         if draw(st.integers(0, 3)) == 0:
             op["n"] = draw(st.integers(0, 8))
         ops.append(op)
